@@ -626,6 +626,33 @@ func runUnsat(c *Ctx) {
 		}
 		c.R.Add("UNSAT-U6", "Error|renders-every-missing-argument", core.FuncName(em), p.Pos(em.Pos()), rendered, "the message renders every element of the missing-argument list", fmt.Sprintf("ok=%v", rendered))
 		c.R.Add("UNSAT-U6", "Error|rendering-reaches-message", core.FuncName(em), p.Pos(em.Pos()), flows, "the rendered missing arguments flow into the returned message", fmt.Sprintf("ok=%v", flows))
+		// the rendered text is an operand of the formatting calls, never (part of) their format string: names, subtypes and
+		// type strings are free-form and may contain '%' (a URL-escaped type URL), which a format string would reinterpret
+		{
+			nf, dyn := 0, ""
+			p.RegionInstrs(em, func(in ssa.Instruction) {
+				cl, ok := in.(*ssa.Call)
+				if !ok {
+					return
+				}
+				idx := -1
+				switch core.CalleeName(cl.Common()) {
+				case "fmt.Sprintf", "fmt.Errorf", "fmt.Printf":
+					idx = 0
+				case "fmt.Fprintf":
+					idx = 1
+				}
+				if idx < 0 || idx >= len(cl.Common().Args) {
+					return
+				}
+				nf++
+				if _, isK := core.ConstString(cl.Common().Args[idx]); !isK {
+					dyn = core.ShortCallee(core.CalleeName(cl.Common())) + " at " + p.InstrPos(in) + " with format " + core.Path(cl.Common().Args[idx])
+				}
+			})
+			c.R.Add("UNSAT-U6", "Error|formats-are-constants", core.FuncName(em), p.Pos(em.Pos()), dyn == "",
+				"every formatting call of the message has a constant format string (rendered labels are operands only)", ternary(dyn == "", fmt.Sprintf("%d formatting call(s), all constant formats", nf), "non-constant format: "+dyn))
+		}
 	}
 
 	// ---- U7: resolver: late unsatisfied detection precedes any execution
